@@ -9,7 +9,7 @@ use white_whale_std::pool_network::{pair, router};
 use white_whale_std::vault_network::vault;
 
 use crate::engine::{gen, hash_of, Check, Fail, Property, Rec, TResult, Tier};
-use crate::ensure;
+use crate::{ensure, ensure_sig};
 use crate::pools::{fees_u, swap_attrs, PairCfg, PairWorld, TrioCfg, TrioWorld};
 use crate::props::c01::{resolve, Amt};
 use crate::vaults::{vcfg, vop, VAmt, VCase, VOp, VaultWorld};
@@ -413,6 +413,8 @@ pub enum ROp {
     Dust { which: u8, amount: Uint128 },
     /// route from asset `start` over `hops` pairs of the chain (forwards or backwards)
     Route { start: u8, hops: u8, back: bool, amt: Amt, recv: Option<u8>, user: u8 },
+    /// route that goes through the same pair twice: start -> neighbour -> start (-> neighbour when `three`)
+    Bounce { start: u8, back: bool, three: bool, amt: Amt, user: u8 },
 }
 
 #[derive(Clone, Debug, Serialize, Deserialize)]
@@ -591,6 +593,8 @@ impl Check for RouterQuote {
             1 => (0u8..4, gen::amount(1, 1u128 << 40)).prop_map(|(which, a)| ROp::Dust { which, amount: Uint128::new(a) }),
             8 => (0u8..4, 1u8..4, any::<bool>(), prop_oneof![2 => gen::amount(1, 1u128 << 60).prop_map(|a| Amt::Abs(Uint128::new(a))), 5 => (1u16..20000).prop_map(Amt::OfReserve)], proptest::option::weighted(0.4, 0u8..4), 0u8..4)
                 .prop_map(|(start, hops, back, amt, recv, user)| ROp::Route { start, hops, back, amt, recv, user }),
+            2 => (0u8..4, any::<bool>(), any::<bool>(), (1u16..20000).prop_map(Amt::OfReserve), 0u8..3)
+                .prop_map(|(start, back, three, amt, user)| ROp::Bounce { start, back, three, amt, user }),
         ];
         (any::<[bool; 4]>(), any::<[bool; 3]>(), gen::small_fee_triple(), prop::collection::vec(rop, 2..max_ops))
             .prop_map(|(cw20, stable, f, ops)| RouterCase {
@@ -624,6 +628,51 @@ impl Check for RouterQuote {
                     let r = cw.router.clone();
                     let a = cw.assets[(*which % 4) as usize].clone();
                     let _ = cw.w.transfer(&who, &r, &a, amount.u128());
+                }
+                ROp::Bounce { start, back, three, amt, user } => {
+                    let s = (*start % 4) as usize;
+                    let n = if *back { s as i64 - 1 } else { s as i64 + 1 };
+                    if !(0..4).contains(&n) {
+                        continue;
+                    }
+                    let n = n as usize;
+                    let hop = |a: usize, b: usize| router::SwapOperation::TerraSwap { offer_asset_info: cw.assets[a].clone(), ask_asset_info: cw.assets[b].clone() };
+                    let mut ops = vec![hop(s, n), hop(n, s)];
+                    let mut end = s;
+                    if *three {
+                        ops.push(hop(s, n));
+                        end = n;
+                    }
+                    if [s, n].iter().any(|k| cw.w.bal(&cw.assets[*k], &cw.router) > 0) {
+                        continue;
+                    }
+                    let who = cw.w.users[(*user % 3) as usize].clone();
+                    // a receiver other than the sender, so that the delta of the final asset is the delivery
+                    let receiver = cw.w.users[3].clone();
+                    let pair_i = s.min(n);
+                    let res = cw.w.bal(&cw.assets[s], &cw.pairs[pair_i]);
+                    let amount = resolve(amt, res, cw.w.bal(&cw.assets[s], &who)).max(1);
+                    let sim: Result<router::SimulateSwapOperationsResponse, String> = cw.w.query(
+                        &cw.router,
+                        &router::QueryMsg::SimulateSwapOperations { offer_amount: Uint128::new(amount), operations: ops.clone() },
+                    );
+                    let rb = cw.w.bal(&cw.assets[end], &receiver);
+                    let r = cw.route_exec(&who, s, amount, ops, None, Some(&receiver), Some(dec(500_000_000_000_000_000)));
+                    if r.is_err() {
+                        rec.class("bounce_route_rejected");
+                        continue;
+                    }
+                    let got = cw.w.bal(&cw.assets[end], &receiver) - rb;
+                    rec.class("bounce_route_ok");
+                    let sim = sim.map_err(|e| Fail::new(format!("step {step}: bounce route executed (receiver got {got}) but its simulation failed: {e}")))?;
+                    ensure_sig!(
+                        got == sim.amount.u128(),
+                        "router-simulation-revisited-pair",
+                        "step {step}: {}-hop route {s}->{n}->{s}{} of {amount} through the same pair twice: simulation said {} but the receiver got {got}",
+                        if *three { 3 } else { 2 },
+                        if *three { format!("->{n}") } else { String::new() },
+                        sim.amount
+                    );
                 }
                 ROp::Route { start, hops, back, amt, recv, user } => {
                     let s = (*start % 4) as usize;
